@@ -24,3 +24,32 @@ Theorem C01_teardown_adds_nothing : forall w order optional p x,
   In x (ps_setup (fst (td_loop w order optional p))) -> In x (ps_setup p).
 Proof. exact td_loop_forgets. Qed.
 Print Assumptions C01_teardown_adds_nothing.
+
+(* ------------------------------------------------------------------------------------------------------------
+   The statement itself, on the model's full bookkeeping (every layer visible), for EVERY world, option set
+   (--layer is applied before the run; -x, --repeat, -j N are options of `run`), fault script and process:
+   c01_trace_ok replays a process's events and checks that
+     - at every test start the layers set up are exactly the test's layer and its transitive bases,
+     - a layer's setUp runs only when it is not set up and all its bases are,
+     - a layer's tearDown runs only when it is set up and no layer derived from it still is,
+     - after a tearDown that raised NotImplementedError no setUp and no test follows,
+     - at the end nothing is left set up (each successful setUp was followed by exactly one tearDown attempt). *)
+From ZT Require Import RunInv.
+
+Theorem C01_parent_process : forall w, wf (lw w) -> forall o,
+  (forall t, In t (tests w) -> t_layer t < nlayers (lw w)) ->
+  c01_trace_ok w (r_parent (run w o)) = true.
+Proof. exact c01_parent. Qed.
+Print Assumptions C01_parent_process.
+
+Theorem C01_every_subprocess : forall w, wf (lw w) -> forall o,
+  (forall t, In t (tests w) -> t_layer t < nlayers (lw w)) ->
+  forall c, In c (r_children (run w o)) -> c01_trace_ok w (c_ev c) = true.
+Proof. exact c01_children. Qed.
+Print Assumptions C01_every_subprocess.
+
+(* a layer subprocess starts from nothing set up and obeys the same discipline *)
+Theorem C01_fresh_subprocess : forall w, wf (lw w) -> forall o l, l < nlayers (lw w) ->
+  c01_trace_ok w (c_ev (child_run w o l)) = true.
+Proof. exact c01_child. Qed.
+Print Assumptions C01_fresh_subprocess.
